@@ -374,6 +374,7 @@ class Check(CheckBase):
         kind = case['kind']
         r = random.Random(case['seed'])
         counters, classes, violations = {'plans': 0}, set(), []
+        slow = []
 
         def viol(what, **w):
             violations.append({'what': what, 'mechanism': None, 'witness': w})
@@ -482,7 +483,12 @@ class Check(CheckBase):
                 return
             state = live()
             if outcome == 'timeout':
-                viol(f'{op} did not finish under {fkind} x{count}', **w)
+                # 60 s of wall clock are not a verdict by themselves: retry waits are virtual, so a call that retries without
+                # limit has made far more requests than any policy allows by then; a call that has not is just slow
+                if attempts > ATTEMPT_BOUND[kind]:
+                    viol(f'{op} did not finish under {fkind} x{count}: still retrying after {attempts} requests', **w)
+                else:
+                    slow.append(f'{kind} {op} under {fkind} x{count} took more than 60 s with {attempts} requests')
             elif count is not None:
                 if fkind == 'refused' and outcome == 'raised':
                     counters['refusals_reported_as_errors'] = counters.get('refusals_reported_as_errors', 0) + 1
@@ -525,6 +531,8 @@ class Check(CheckBase):
                 if len(violations) > 4:
                     break
         asyncio.run(go())
+        if slow and not violations:
+            return {'verdict': 'inconclusive', 'note': slow[0], 'classes': sorted(classes), 'counters': counters}
         return {'verdict': 'violated' if violations else 'held', 'classes': sorted(classes), 'counters': counters,
                 'violations': violations[:4]}
 
